@@ -335,7 +335,7 @@ func c55(c *Ctx) {
 		// arg0 of tokenEqual IS a trimOWS call (not merely derived from one); arg1 is the token parameter
 		n, bad := 0, ""
 		for _, in := range teCalls.F(c.P, fn) {
-			args := in.(*ssa.Call).Call.Args
+			args := BaselineArgs(&in.(*ssa.Call).Call)
 			n++
 			if call, ok := args[0].(*ssa.Call); !ok || CalleeName(&call.Call) != G+"trimOWS" {
 				bad = "first argument " + Term(args[0]) + " is not a trimOWS result"
@@ -349,7 +349,7 @@ func c55(c *Ctx) {
 		ib := Calls("strings.IndexByte").F(c.P, fn)
 		bad = ""
 		for _, in := range ib {
-			if t := Term(in.(*ssa.Call).Call.Args[1]); t != "44" {
+			if t := Term(BaselineArgs(&in.(*ssa.Call).Call)[1]); t != "44" {
 				bad = "IndexByte searches for " + t
 			}
 		}
